@@ -12,6 +12,7 @@ Import ListNotations.
 Require Import MD.Lib.Strided MD.Load.Model MD.Load.Lemmas MD.Load.Proofs MD.Load.Theorems MD.Load.Refuted.
 Require Import MD.Load.Reflect MD.Load.ReflectProofs MD.Load.Stamps.
 Require MD.Cursor.Model MD.Load.CursorLink.
+Require Import MD.Load.MultiModel MD.Load.MultiProofs MD.Load.MultiReflect MD.Load.MultiReflectProofs.
 
 Section Statements.
 Context {A : Type} (junk : A).
@@ -346,3 +347,141 @@ Example guards_satisfiable :
   iterload 99 g11 (FArr true) (seq 0 10) 3 2 0 sel1 14 = ([[100; 102; 104]; [106; 108]], Fin).
 Proof. repeat split; try (vm_compute; reflexivity); vm_compute; auto with arith. Qed.
 Print Assumptions guards_satisfiable.
+
+(* ================================================================== md.load of a LIST of files (round 5)
+   [same] is the overlap test of Trajectory.join (all atoms within 2e-3 nm), any boolean relation on frames.
+   load_list_d: every file through the loader with the same arguments, then md.join = the LEFT fold of
+   Trajectory.join; spec_load_list_d: md.join of the strided, atom-sliced full files (the property). *)
+Section Lists.
+Context {A : Type} (junk : A) (same : A -> A -> bool).
+
+Theorem load_list_discard_join : forall d fm (fs : list (list A)) str ai, stride_ok fm -> 1 <= str -> fs <> [] ->
+  (fm = FTrr -> forall f, In f fs -> f <> []) ->
+  load_list_d junk same d fm fs str ai = spec_load_list_d same d fs str ai.
+Proof. exact (load_list_d_join junk same). Qed.
+
+Theorem load_list_join_is_concatenation : forall (fs : list (list A)) str ai,
+  spec_load_list_d same false fs str ai = spec_load_list fs str ai.
+Proof. exact (spec_load_list_d_plain same). Qed.
+
+Theorem load_list_layers_agree : forall fm (fs : list (list A)) str ai,
+  load_list_d junk same false fm fs str ai = load_list junk fm fs str ai.
+Proof. exact (load_list_d_plain junk same). Qed.
+
+Theorem load_list_discard_without_overlap : forall (fs : list (list A)) str ai f0 x, 1 <= str ->
+  lasto (map (app ai) (every str f0)) = Some x ->
+  separated same x (map (fun f => map (app ai) (every str f)) fs) ->
+  spec_load_list_d same true (f0 :: fs) str ai = spec_load_list (f0 :: fs) str ai.
+Proof. exact (discard_without_overlap same). Qed.
+
+Theorem load_list_discard_reassembles : forall (s0 : list A) segs ai x,
+  (forall y, same (app ai y) (app ai y) = true) -> lasto s0 = Some x -> chain x segs ->
+  spec_load_list_d same true (s0 :: segs) 1 ai = Ok (map (app ai) (s0 ++ concat (map (@tl A) segs))).
+Proof. exact (discard_reassembles same). Qed.
+
+(* ---- dispatch by file extension around the readers *)
+Theorem dispatch_by_extension_conforming : forall g fm (f : list A) fs c str k frame ai d fuel,
+  md_load junk disp_ok fm f str frame ai = load junk fm f str frame ai /\
+  md_iterload junk disp_ok g fm f c str k ai fuel = iterload junk g fm f c str k ai fuel /\
+  md_load_list junk same disp_ok d fm fs str ai = load_list_d junk same d fm fs str ai.
+Proof. exact (dispatch_conforming junk same). Qed.
+
+Theorem dispatch_unknown_topology_extension_refuses : forall dp g fm (f : list A) fs c str k frame ai d fuel,
+  top_by_ext dp = false ->
+  md_load junk dp fm f str frame ai = Raise /\
+  md_load_list junk same dp d fm fs str ai = Raise /\
+  md_iterload junk dp g fm f 0 str k ai fuel = ([], Raised) /\
+  (has_fileobject dp = true -> calls_load fm c = false ->
+   md_iterload junk dp g fm f c str k ai fuel = iterload junk g fm f c str k ai fuel).
+Proof. exact (dispatch_unknown_topology_extension junk same). Qed.
+
+Theorem dispatch_no_fileobject_refuses : forall dp g fm (f : list A) c str k ai fuel,
+  has_fileobject dp = false -> calls_load fm c = false ->
+  md_iterload junk dp g fm f c str k ai fuel = ([], Raised).
+Proof. exact (dispatch_no_fileobject junk). Qed.
+
+End Lists.
+
+Print Assumptions load_list_discard_join.
+Print Assumptions load_list_join_is_concatenation.
+Print Assumptions load_list_layers_agree.
+Print Assumptions load_list_discard_without_overlap.
+Print Assumptions load_list_discard_reassembles.
+Print Assumptions dispatch_by_extension_conforming.
+Print Assumptions dispatch_unknown_topology_extension_refuses.
+Print Assumptions dispatch_no_fileobject_refuses.
+
+(* non-vacuity of chain / lasto: segments 0..3 | 3..5 | 5..8; plain joining doubles frames 3 and 5 *)
+Example load_list_discard_example :
+  spec_load_list_d nsame true [[0; 1; 2; 3]; [3; 4; 5]; [5; 6; 7; 8]] 1 None = Ok (seq 0 9) /\
+  spec_load_list_d nsame false [[0; 1; 2; 3]; [3; 4; 5]; [5; 6; 7; 8]] 1 None = Ok [0; 1; 2; 3; 3; 4; 5; 5; 6; 7; 8] /\
+  chain 3 [[3; 4; 5]; [5; 6; 7; 8]] /\ lasto [0; 1; 2; 3] = Some 3.
+Proof. exact discard_example. Qed.
+Print Assumptions load_list_discard_example.
+
+Example load_list_discard_stride_example :
+  spec_load_list_d nsame true [[0; 1; 2; 3]; [3; 4; 5]; [5; 6; 7; 8]] 2 None = Ok [0; 2; 3; 5; 7] /\
+  spec_load_list_d nsame true [[0; 1; 2; 3; 4]; [4; 5; 6]] 2 None = Ok [0; 2; 4; 6].
+Proof. exact discard_stride_example. Qed.
+Print Assumptions load_list_discard_stride_example.
+
+(* as found: md.load('x.hdf5') and md.iterload('x.stk', chunk > 0) refuse *)
+Theorem load_hdf5_extension_current_refused :
+  exists (f : list nat), f <> [] /\
+    md_load 99 (mkdisp false true) (FArr true) f 1 None None <> spec_load f 1 None None /\
+    md_load 99 (mkdisp false true) (FArr true) f 1 (Some 0) None <> spec_load f 1 (Some 0) None /\
+    load_frame 99 (FArr true) f 0 None = spec_load f 1 (Some 0) None.
+Proof. exact hdf5_extension_refuted. Qed.
+Print Assumptions load_hdf5_extension_current_refused.
+
+Theorem iterload_stk_current_refused :
+  exists (f : list nat) c, 1 <= c /\
+    md_iterload 99 (mkdisp true false) (mkglue true true) FNc f c 1 0 None (S (length f)) <> spec_iterload f c 1 0 None.
+Proof. exact stk_iterload_refuted. Qed.
+Print Assumptions iterload_stk_current_refused.
+
+(* ---- reflection for the list-loading layer: the terms extracted from md.load's tail, md.join and the
+   discard_overlapping_frames block of Trajectory.join (coq/Gen/LoadReaders.v: join_term, load_list_term) that pass the
+   checkers denote exactly the model; [other] is whatever a different overlap test would compute *)
+Theorem reflected_join_is_model : forall (A : Type) (same other : A -> A -> bool) j, check_join j = true ->
+  forall d (a b : list A), join2_sem same other j d a b = join2 same d a b.
+Proof. exact @join_reflection. Qed.
+Print Assumptions reflected_join_is_model.
+
+Theorem reflected_load_list_is_model : forall (A : Type) (junk : A) (same other : A -> A -> bool) m j,
+  check_list m = true -> check_join j = true ->
+  forall d fm (fs : list (list A)) str ai,
+  list_sem junk same other m j d fm fs str ai = load_list_d junk same d fm fs str ai.
+Proof. exact @list_reflection. Qed.
+Print Assumptions reflected_load_list_is_model.
+
+Theorem reflected_load_list_satisfies_C02 : forall (A : Type) (junk : A) (same other : A -> A -> bool) m j,
+  check_list m = true -> check_join j = true ->
+  forall d fm (fs : list (list A)) str ai, stride_ok fm -> 1 <= str -> fs <> [] ->
+  (fm = FTrr -> forall f, In f fs -> f <> []) ->
+  list_sem junk same other m j d fm fs str ai = spec_load_list_d same d fs str ai.
+Proof. exact @list_reflection_satisfies_C02. Qed.
+Print Assumptions reflected_load_list_satisfies_C02.
+
+(* terms that differ denote something else: trimming the first frame of the later file keeps the other copy of the
+   junction frame (another time stamp); a discard flag that is not handed on doubles the junction frame *)
+Example reflected_join_other_trim_differs :
+  join2_sem (fun a b : nat * nat => fst a =? fst b) (fun _ _ => false)
+            (mkjterm JLast JFirst true true 20 TrimRightFirst true) true [(0, 0); (1, 1)] [(1, 0); (2, 1)]
+    <> join2 (fun a b : nat * nat => fst a =? fst b) true [(0, 0); (1, 1)] [(1, 0); (2, 1)].
+Proof. exact (proj2 trim_right_differs). Qed.
+Print Assumptions reflected_join_other_trim_differs.
+
+Example reflected_load_list_discard_dropped_differs :
+  list_sem 99 nsame nsame (mkmlterm true true true false true) ref_jterm true FNc [[0; 1]; [1; 2]] 1 None
+    <> spec_load_list_d nsame true [[0; 1]; [1; 2]] 1 None.
+Proof. exact discard_not_passed_differs. Qed.
+Print Assumptions reflected_load_list_discard_dropped_differs.
+
+(* non-vacuity of [separated]: files 0..3 | 5..6 | 8 share no junction frame; discarding changes nothing *)
+Example load_list_separated_example :
+  lasto (map (app None) (every 1 [0; 1; 2; 3])) = Some 3 /\
+  separated nsame 3 (map (fun f => map (app None) (every 1 f)) [[5; 6]; [8]]) /\
+  spec_load_list_d nsame true [[0; 1; 2; 3]; [5; 6]; [8]] 1 None = Ok [0; 1; 2; 3; 5; 6; 8].
+Proof. repeat split; reflexivity. Qed.
+Print Assumptions load_list_separated_example.
